@@ -680,7 +680,18 @@ void run_fit(vf::ctx_t& c)
     std::string desc    = "loss=" + loss_id + " ";
     const auto  fseed   = rng.next();
     const bool  use_gboost = c.args.get("family", rng.chance(0.5) ? "gboost" : "linear") == "gboost";
-    const auto  linear_id  = rng.pick(linear_t::all().ids());
+    // elastic net is the only shipped model with two tuned hyper-parameters (multi-trial batches in ml::tune)
+    auto linear_id = rng.pick(linear_t::all().ids());
+    if (rng.chance(0.35))
+    {
+        for (const auto& id : linear_t::all().ids())
+        {
+            if (id.find("elastic") != std::string::npos)
+            {
+                linear_id = id;
+            }
+        }
+    }
 
     const auto fit_once = [&](size_t tune_pool, size_t dataset_pool, int delay_mode, int cpus) -> fit_result_t
     {
